@@ -69,7 +69,8 @@ func (f *fetcher) handleUpstream200(req *http.Request, resp *http.Response, key 
 
 	slog.Debug("Caching response...", "status", resp.Status, "url", req.URL, "key", key)
 
-	lastModified := time.Now()
+	// Zero when the origin sent no (valid) Last-Modified: never invent a validator
+	var lastModified time.Time
 	if t, err := http.ParseTime(resp.Header.Get("Last-Modified")); err == nil {
 		lastModified = t
 	}
